@@ -467,3 +467,38 @@ PROPS['C04'] = dict(
     technique=T_CB + ' (harness-enforced), bounded unwinding on capacity-shrunk copies, native replay',
     explanation=EXPL_COMMON,
     assumptions=['composition: equal msa after reading => equal result (kalign_run is a function of the msa, see C16)'])
+Q(id='C04.detect_aligned.manyrows', props=['C04', 'C17', 'C01'], cls='B', harness='c04_detect_aligned.c', entry='h_c04_detect_aligned',
+  mode='wrap', unwind=64, timeout=600, funcs=['detect_aligned'], trusted=[TRUST_MSG], native_srcs=['lib/src/tldevel.c', 'lib/src/msa_alloc.c', 'lib/src/alphabet.c'],
+  assumptions=[A_NOFAIL, A_WRAP, 'bounded: 61 rows, all equal to one gap-free row record of 2 residues except possibly one row at a symbolic position (1 residue, symbolic gap counts 0..3)'])
+
+# =========================================================================== writers (C15, C06)
+def _writer_shapes(tier):
+    out = []
+    base = [(2, 1, (1, 2)), (2, 3, (2, 3)), (2, 60, (1, 3)), (2, 61, (2, 2)), (3, 2, (1, 2, 3))]
+    if tier != 'quick':
+        base += [(2, 59, (1, 1)), (2, 120, (1, 2)), (2, 121, (3, 1)), (3, 60, (1, 2, 1)), (2, 5, (10, 3))]
+    for n, w, nl in base:
+        for fmt in (0, 1, 2):
+            for prot in ((0, 1) if fmt == 2 else (0,)):
+                uw = max(70, w + 10, 30)
+                out.append(dict(name='n%d_w%d_names%s_fmt%d_prot%d' % (n, w, ''.join(map(str, nl)), fmt, prot),
+                                defs=dict(KV_N=n, KV_W=w, KV_NAMELENS='{' + ','.join(map(str, nl)) + '}', KV_FMT=fmt, KV_PROT=prot), unwind=uw))
+    return out
+WRITER_SRCS = ['lib/src/msa_alloc.c', 'lib/src/msa_op.c', 'lib/src/msa_misc.c', 'lib/src/alphabet.c', 'lib/src/tlmisc.c']
+Q(id='C15.writers', props=['C15', 'C06', 'C01'], cls='B', harness='c15_writers.c', entry='h_c15_write', shapes=_writer_shapes,
+  mode='wrap', timeout=1200, loops_files=['msa_alloc.shrink.loops', 'msa_io.shrink.loops', 'msa_io.lines.shrink.loops'], shrink=True,
+  defs=['-DKV_CAP=2', '-DKV_SEQCAP=2', '-DKV_LCAP=24', '-DKV_OUTMAX=1400'], object_bits=10,
+  unwindset={'kv_puts.0': 402, 'sb_puts.0': 402, 'expect_str.0': 302, 'kv_streq.0': 82, 'strnlen.0': 258, 'kv_fprintf.0': 102},
+  funcs=['kalign_write_msa', 'parse_format_argument', 'write_msa_fasta', 'write_msa_clu', 'write_msa_msf', 'alloc_line_buffer', 'resize_line_buffer', 'free_line_buffer',
+         'sort_out_lines', 'GCGchecksum', 'GCGMultchecksum'],
+  srcs=WRITER_SRCS, native_srcs=['lib/src/tldevel.c', 'lib/src/esl_stopwatch.c'] + WRITER_SRCS,
+  trusted=[TRUST_MSG, 'stdio capture stubs (contracts/stubs_io.h): fprintf/snprintf for exactly the formats the writers use, fopen/fclose/time/localtime_r/strftime trivial',
+           'qsort insertion-sort stub', 'realloc byte-copy stub', 'R3 capacity shrink (line table 1024 -> 24 lines: no growth of the line table occurs in these shapes, resize_line_buffer is not exercised; record growth 512 -> 2)'],
+  assumptions=[A_NOFAIL, A_WRAP, 'bounded: 2-3 rows, widths 1,3,60,61 (thorough 59,120,121), names of 1-3 (10) characters from [A-Za-z0-9_.|-], row bytes from {-,A,c,G,t,N}; output to stdout (outfile == NULL)'])
+PROPS['C15'] = dict(
+    level='other',
+    level_text=('the three writers are run on symbolic finalised alignments with stdio captured; the captured bytes are checked against the format rules of the property (60-column wrapping, header lines, blocks with every sequence once, in order) '
+                'and the structured MSF header values (declared length, per-row and total GCG checksums, molecule type) against an independent checksum and the kind of sequence'),
+    level_note='bounded (2-3 rows, widths around the 60-column boundary); stdio replaced by capture stubs; file output path (fopen) not exercised; capacity-shrunk line table',
+    technique=T_CB + ' (harness-enforced), bounded unwinding, stdio capture stubs; native replay',
+    explanation=EXPL_COMMON)
